@@ -379,6 +379,60 @@ def run_histories(ctx, desc):
         rig.close()
 
 
+def run_signalled_reception(ctx, desc):
+    """PDO transport with frames delivered from another thread: when wait_for_reception() on the statusword's TPDO hands a
+    reception to the waiting thread, `node.statusword` (what check_statusword() returns and `.state` decodes) is that
+    frame's statusword.  The receiving thread is held right after it has released the map's lock, so a waiter that can
+    overtake the bookkeeping of that frame does."""
+    import threading
+    from canmon import waits
+    rng = random.Random(repr(("c19r", desc["cs"])))
+    for k in range(6):
+        drive = D.Drive402(state=rng.choice([D.SOD, D.RTSO, D.SO]))
+        rig = DriveRig("pdo", drive)
+        rig.send_tpdo()
+        tpdo = rig.node.tpdo[1]
+        cond = waits.SignallingCondition()
+        tpdo.receive_condition = cond
+        gate = {"waiter": None, "left": threading.Event(), "go": threading.Event(), "max": 20.0}
+        box = {}
+
+        def waiter():
+            gate["waiter"] = threading.get_ident()
+            box["ts"] = tpdo.wait_for_reception(40)
+            box["sw"] = rig.node.statusword
+            box["state"] = rig.node.state
+        wt = threading.Thread(target=waiter, daemon=True)
+        n = cond.waits
+        wt.start()
+        end = time.time() + 30
+        while time.time() < end and not (cond.waits > n and cond.waiting.is_set()):
+            time.sleep(0.0005)
+        new_state = rng.choice([s_ for s_ in (D.OE, D.QSA, D.FAULT, D.SO, D.RTSO) if s_ != drive.state])
+        cond.exit_gate = gate
+
+        def receive():
+            drive.state = new_state
+            rig.send_tpdo()
+        rx = threading.Thread(target=receive, daemon=True)
+        rx.start()
+        wt.join(60)
+        gate["go"].set()
+        rx.join(30)
+        cond.exit_gate = None
+        case = {"workload": "signalled-reception", "new_state": new_state}
+        ctx.case(("signalled-reception", new_state), nontrivial=True)
+        ctx.count("transition_cases")
+        if wt.is_alive() or "sw" not in box:
+            ctx.inconc("signalled reception: the waiter did not come back", case)
+        elif box["ts"] is None:
+            ctx.inconc("signalled reception: wait_for_reception timed out", case)
+        elif D.decode_statusword(box["sw"]) != new_state or box["state"] != new_state:
+            ctx.violation("statusword-stale-after-signalled-reception", f"wait_for_reception handed out the frame that reports {new_state!r}, but node.statusword is "
+                          f"{box['sw']:#06x} ({box['state']!r}) right afterwards", case)
+        rig.close()
+
+
 def run_slow_drive(ctx):
     """Every single transition takes 0.3 s (well inside the single-step allowance of 4 s); the whole path takes longer
     than TIMEOUT_SWITCH_STATE_FINAL (0.5 s), which only limits a step that does *not* confirm."""
@@ -457,6 +511,8 @@ def run(ctx, desc):
         run_transitions(ctx, desc)
     elif desc["kind"] == "histories":
         run_histories(ctx, desc)
+        if desc["transport"] == "pdo":
+            run_signalled_reception(ctx, desc)
     else:
         run_modes(ctx, desc)
 
